@@ -24,6 +24,8 @@ claimed = {
          "Integer (Int) arithmetic with every int64 overflow proved absent as side obligation; fmt.Sprintf/strconv modelled at digit level (stubs listed in evidence).", "§6 C12"),
  "C17": ("main() of calcHermesBatch executed symbolically with the file reader replaced by an arbitrary line count: for every line count >= nodes (nodes 1..16 quick, 64 thorough) and every enumerated count below, the printed ranges are as many as the reported size, contiguous from 1 and end at the last line; lineCounter equals the simulator's executed-line count for all byte buffers up to 4 (thorough 6) bytes in one or two chunks.",
          "Int arithmetic; printed text modelled as segments (literal text + decimal rendering of an int term); hermes2go's -lines dispatch (goroutines) not encoded.", "§6 C17"),
+ "C04": ("transformWeatherData, replaceMissingValues and LoadYear executed symbolically on 1-3 years of T<=3 days with every value (and the sentinel) symbolic: mm->cm with correction, PAR = half radiation, wind floor on every day, gap = mean of the calendar-adjacent days also across the year change, present values untouched, year lookup copies exactly the requested year or returns an error.",
+         "Real arithmetic; year length shrunk (routines parametric in MaxYearDays); the three file readers' text handling and the discarded LoadYear error at the call sites are outside this check (see DESIGN).", "§6 C04"),
 }
 props = [json.loads(l) for l in open(os.path.join(ROOT, 'properties.jsonl'))]
 reasons = {}
